@@ -26,6 +26,15 @@ CLAIMED = {
  "C07": dict(
    text="Proof of (a) no panic: all automatically generated safety obligations (index, nil map, nil deref, type assertion, overflow, truncation) on the compile path for arbitrary policy values; (b) error => no program; (c) each listed defect => error (Policy.Validate, toSyscallsWithConditions, ArgumentConditions.Validate incl. unknown operations, GetInfo). Clause (d) 'valid policies are accepted' is NOT proved (needs Program.Assemble's no-error clause); the witness family exercises it.",
    note=COMMON_NOTE+" Groups' unexported arch field is assumed nil (policies constructed through the Go API).", technique=TECH, ref="7 C07"),
+ "C12": dict(
+   text="Proof over finite data (exhaustive, back end constfold + SMT for the two functions): ground obligations generated from the AST of arch/zsyscalls.go, info.go, zarches.go on every run: for each of the five tables the precondition of invert (no name with two numbers) holds, numbers in [0,2^30), every (name, number) pair agrees with each vendored oracle (kernel unistd headers, Go syscall and x/sys tables) wherever the oracle lists the name, each auditArch* constant equals AUDIT_ARCH_* computed from linux/audit.h + elf-em.h, alias keys resolve to the stated Info, table-less architectures are unsupported. invert is verified against its contract (inverse + domain, for any iteration order); GetInfo against 'lower-case the name, look it up in arches, error iff absent or table-less'.",
+   note="Trusted: oracle files under /verif/oracle (provenance listed there; headers are Linux 6.1, tables v6.11: agreement is checked wherever the oracle lists the name); strings.ToLower contract; the generator mk_syscalls_linux.go is not verified.", technique="contract-based verification + ground obligations over repository literals (exact evaluation)", ref="7 C12"),
+ "C14": dict(
+   text="Proof of the code-side clauses: Action.Unpack / Operation.Unpack verified against 'result depends only on ToLower(s); a known name yields exactly its constant, an unknown name yields an error and leaves the value unchanged' (map-range loop with visited-set invariant; early return order-independent because names are distinct), String against the name table, round-trip lemmas over these contracts; ground obligations: actionNames maps exactly the seven documented names to the UAPI constants, Operations lists the eight names (distinct under case folding), and for every exported field of Policy/SyscallGroup/NameWithConditions/Condition the config, yaml and json keys coincide.",
+   note="Not decided by contracts: go-ucfg / yaml.v2 / encoding/json internals (reflection) incl. numeric fidelity for operands >= 2^63 - assumed via library contracts 'a field is written/read under its tag key'; the replay harness exercises the real libraries only to confirm a failed obligation. ToLower instances on the literal names are assumed.", technique="contract-based verification + ground obligations over struct tags and name tables", ref="7 C14"),
+ "C19": dict(
+   text="Proof over finite data: for every GOOS/GOARCH examined (quick: 7 targets, thorough: all of `go tool dist list` that type-check, 44 on the unchanged tree) the module is loaded under that build context and ground obligations are generated from the type-checker's constant values: the eight actions, two filter flags, EPERM/ENOSYS, PR_SET_NO_NEW_PRIVS and the seccomp modes equal the UAPI oracle; on non-Linux targets the three loader stubs contain no call expression and Supported is 'return false'; GOARCH has tables iff it is amd64/386/arm/arm64, else GetInfo(\"\") errs by its verified contract and Policy.Assemble propagates the error (verified postcondition).",
+   note="Trusted: vendored UAPI headers (/verif/oracle); MIPS ENOSYS=89 from kernel sources (header not in the image). Same program wherever compiled additionally relies on determinism (C13).", technique="ground obligations from go/types constant evaluation per build context + contracts", ref="7 C19"),
 }
 NA_REASON = "check not built yet (work in progress; DESIGN.md section 7 describes the planned contracts)"
 
